@@ -37,6 +37,13 @@ Proof.
   now rewrite andb_false_r.
 Qed.
 
+Lemma has_wx_lor a c : has_wx a = true -> has_wx (N.lor a c) = true.
+Proof.
+  unfold has_wx. intro Ha. apply N.eqb_eq in Ha. apply N.eqb_eq.
+  rewrite N.land_lor_distr_l, Ha. apply N.bits_inj. intro i.
+  rewrite N.lor_spec, N.land_spec. destruct (N.testbit owner_wx i), (N.testbit c i); reflexivity.
+Qed.
+
 Lemma has_wx_base umask : umask_keeps_wx umask -> has_wx (create_mode dir_create_bits umask 511) = true.
 Proof.
   intro Hu.
@@ -67,7 +74,7 @@ Proof.
   - destruct (fs_lookup f (rev rp ++ [x])) as [[| |]|]; try discriminate; [injection E as <-; exact Hf|].
     destruct (mkdir_all umask (N.lor m owner_rwx) f rp) as [f1|] eqn:E1; [|discriminate].
     injection E as <-. apply set_wx; [eapply IH; eauto|].
-    intros m0 E0. injection E0 as <-. now apply has_wx_created.
+    intros m0 E0. injection E0 as <-. apply has_wx_lor. now apply has_wx_created.
 Qed.
 
 Ltac split_ok :=
